@@ -83,6 +83,11 @@ def charts(draw, max_states=12, max_depth=4, p_hist=0.4, allow_final=True, root_
     n = len(nodes)
     ids = draw(st.lists(st.integers(0, 99), min_size=n, max_size=n, unique=True))
     names = [name_fmt % i for i in ids]
+    if name_fmt == 's%02d' and draw(st.integers(0, 3)) == 0:
+        # names whose string order differs from their numeric order and from a case-insensitive
+        # order: 'S7' < 'Z100' < 'a10' < 'a9' < 's3'
+        ids = draw(st.lists(st.integers(0, 120), min_size=n, max_size=n, unique=True))
+        names = [draw(st.sampled_from(['s', 's', 'S', 'a', 'Z'])) + '%d' % i for i in ids]
     states = []
     for i, nd in enumerate(nodes):
         s = {'name': names[i], 'sid': i, 'kind': nd['kind'],
@@ -222,7 +227,7 @@ def histories(draw, spec, min_ops=6, max_ops=20, n_events=3, delays=False, advan
             d = None
             if delays and draw(st.floats(0, 1)) < 0.4:
                 d = draw(st.sampled_from(DELAYS))
-            mode = draw(st.sampled_from(['str', 'event', 'multi'])) if as_event else 'str'
+            mode = draw(st.sampled_from(['str', 'event', 'multi', 'multi_dec'])) if as_event else 'str'
             ops.append(['q', draw(st.sampled_from(events)), d, mode, 'x%d' % uid])
             uid += 1
         elif kind == 'adv':
